@@ -118,9 +118,10 @@ func c09Trickle(r *kit.Run, idx int64, rng *rand.Rand) {
 	}
 }
 
-// c09Fill: many short-lived brokers with a buffered subscription that
-// nobody drains and several dispatch workers racing for its last free
-// slots; then Stop: Wait returns and nothing of the broker is left.
+// c09Fill: many short-lived brokers, alternately (a) with a buffered
+// subscription that nobody drains and several dispatch workers racing for
+// its last free slots, (b) with a large pool of idle workers parked on a
+// Queue; then Stop / cancel: Wait returns and nothing of the broker is left.
 func c09Fill(r *kit.Run, idx int64, rng *rand.Rand) {
 	brokers := 60
 	procs := []int{4, 16}[rng.IntN(2)]
@@ -134,6 +135,13 @@ func c09Fill(r *kit.Run, idx int64, rng *rand.Rand) {
 		for k := 0; k < brokers && viol == "" && inconclusive == ""; k++ {
 			cfg := brokerCfg{Backend: []string{"channel", "queue-unlimited", "queue-bounded"}[rng.IntN(3)], Direct: rng.IntN(2) == 0, Delay: "none",
 				Buffer: []int{1, 2, 3, 8}[rng.IntN(4)], Workers: []int{2, 4, 8}[rng.IntN(3)], Parallel: true, Cap: 64}
+			idlePool := k%2 == 1
+			if idlePool {
+				// the other flavour: a large pool of idle dispatch workers, all
+				// parked on the Queue's condition variable when the stop arrives
+				cfg = brokerCfg{Backend: []string{"queue-unlimited", "queue-bounded"}[rng.IntN(2)], Direct: rng.IntN(2) == 0, Delay: "none",
+					Workers: []int{16, 32, 96}[rng.IntN(3)], Parallel: rng.IntN(2) == 0, Cap: 8}
+			}
 			last = cfg
 			h := newBrokerHarness(cfg)
 			_ = h.b.Subscribe(h.ctx) // nobody reads it
@@ -144,7 +152,7 @@ func c09Fill(r *kit.Run, idx int64, rng *rand.Rand) {
 			}
 			pctx, pcancel := context.WithCancel(h.ctx)
 			var pwg sync.WaitGroup
-			for m := 0; m < cfg.Buffer+cfg.Workers+2+rng.IntN(4); m++ {
+			for m := 0; m < cfg.Buffer+cfg.Workers+2+rng.IntN(4) && !idlePool; m++ {
 				pwg.Add(1)
 				go func(m int) { defer pwg.Done(); h.b.Publish(pctx, uint32(m+1)) }(m)
 			}
